@@ -146,7 +146,7 @@ def evaluate(case, rec, kinds, tpm_type=None, P=None, iff_value=False):
     if rooted:
         rec.count("rooted_decodes")
         if t.root_escapes:
-            rec.violation("root-path", "path-outside-root", f"{case.short()}\ndecoded with root_path='.log.msg': {TR.pstr(t.root_escapes[0])} does not lie under that root "
+            rec.violation("root-path", "path-outside-root", f"{case.short()}\ndecoded with root_path='.log.msg[2]': {TR.pstr(t.root_escapes[0])} does not lie under that root "
                                                             f"(outcome {t.outcome[0]})", dict(case.replay(), rooted=True))
     ref, t, kind, findings = oracles.strict_vs_ref(case, ref, t)
     rec.count(f"ref_{kind}")
